@@ -338,6 +338,40 @@ func lockSuite(c *Ctx) []Finding {
 		count("second-open-waits", "ok")
 	}
 
+	// (g) the handle Create returns holds the file like any other: while it is open the file
+	// is locked and a second Open waits; updates of the two sessions are both kept
+	cpath := filepath.Join(dir, "created.wsp")
+	if cdb, err := wt.Create(cpath, lockLayout(), wt.Sum, 0); err == nil {
+		free, perr := lockFree(cpath)
+		count("create-holds-lock", "ok")
+		if perr == nil && free {
+			bad("create-unlocked", "the file is not locked while the handle returned by Create is open")
+		}
+		done := make(chan error, 1)
+		go func() {
+			db, err := wt.Open(cpath)
+			if err == nil {
+				db.Close()
+			}
+			done <- err
+		}()
+		select {
+		case <-done:
+			bad("no-exclusion-create", "an Open returned while the handle returned by Create was still open")
+		case <-time.After(200 * time.Millisecond):
+		}
+		cdb.Sync()
+		cdb.Close()
+		select {
+		case <-done:
+		case <-time.After(5 * time.Second):
+			bad("open-never-returns", "an Open waiting for the creator's handle did not return within 5 s after it was closed")
+		}
+		if free, perr := lockFree(cpath); perr == nil && !free {
+			bad("lock-leak-create", "the file is still locked after the creator's handle was closed")
+		}
+	}
+
 	// (f) what a waiting Open sees is the file as of the moment it gets the lock: a session
 	// holding the lock brings the file to its final size and content while an Open waits
 	fdsOn := func(path string) int {
@@ -423,9 +457,20 @@ func raceSuite(c *Ctx) []Finding {
 		if err != nil {
 			continue
 		}
-		for b := 0; b < 4; b++ {
-			pts, _ := parsePts(g.genBatch())
-			db.UpdatePointsForArchive(pts, -1, wt.Timestamp(now))
+		switch cs % 3 {
+		case 0:
+			// never written: every archive answers from the "no base interval yet" path
+		case 1:
+			// only the coarsest archive written: the finer ones are never-written
+			for b := 0; b < 2; b++ {
+				pts, _ := parsePts(g.genBatch())
+				db.UpdatePointsForArchive(pts, g.lay.K()-1, wt.Timestamp(now))
+			}
+		default:
+			for b := 0; b < 4; b++ {
+				pts, _ := parsePts(g.genBatch())
+				db.UpdatePointsForArchive(pts, -1, wt.Timestamp(now))
+			}
 		}
 		db.Sync()
 		db.Close()
